@@ -42,6 +42,7 @@ type handle struct {
 }
 
 type run struct {
+	brandHold bool
 	s       *simrt.Sched
 	hooks   []*hookM
 	handles []*handle
@@ -150,6 +151,14 @@ func (h *simHook) Recv(ctx context.Context, r capnp.Recv) capnp.PipelineCaller {
 func (h *simHook) Brand() capnp.Brand {
 	if h.m.shutdown > 0 {
 		h.r.s.Fail("call_after_shutdown", "capability.go:Brand", fmt.Sprintf("Brand reached hook H%d after its Shutdown", h.m.id))
+	}
+	if h.r.brandHold {
+		// Brand is an access to the capability like Send and Recv: it takes a moment, and the
+		// capability must not be shut down while it runs (Client.State brackets it like a call)
+		h.m.active++
+		simrt.YieldAt("hook-brand")
+		h.m.active--
+		h.r.s.Probe("brand_in_progress_across_a_schedule_point")
 	}
 	return capnp.Brand{Value: h.m.id}
 }
@@ -517,6 +526,8 @@ func (r *run) taskBody(ts *taskState, nops int) {
 
 func (Engine) Run(t *testing.T, tape *simrt.Tape, opt worker.Options) *worker.Outcome {
 	r := &run{calls: map[int]*callRec{}}
+	// (tapes recorded before Brand took a schedule point carry no "brand" parameter and keep their meaning)
+	r.brandHold = opt.Params["brand"] == "hold" || !tape.Replaying()
 	var tasks []*taskState
 	body := func(s *simrt.Sched) {
 		r.s = s
@@ -591,6 +602,9 @@ func (Engine) Run(t *testing.T, tape *simrt.Tape, opt worker.Options) *worker.Ou
 	oc := &worker.Outcome{Res: res, Verdict: res.Verdict, Ops: r.ops, Probes: res.Probes, Faults: res.Faults}
 	oc.NonTrivial = res.Switches > 0
 	oc.Key = res.TraceHash
+	if r.brandHold {
+		oc.ReplayParams = map[string]string{"brand": "hold"}
+	}
 	oc.Sample = map[string]interface{}{"hooks": len(r.hooks), "tasks": len(tasks), "handles": len(r.handles), "ops": r.ops, "calls": len(r.calls), "steps": res.Steps, "switches": res.Switches}
 	if oc.Verdict != nil {
 		oc.Pattern = oc.Verdict.Oracle
